@@ -30,9 +30,27 @@ from .. import offline_impl as I
 PROPERTY = "C12"
 DRIVER = "drv_offline"
 THEOREMS = [
+    "C12.literal",
     "C12.split",
+    "C12.closed",
+    "C12.lex_roundtrip",
+    "C12.sqlite_bareSafe",
+    "C12.reads_back_vt",
+    "C12.same_effect_partial",
+    "C12.same_effect_counterexample",
+    "C12.same_effect_statement_false",
 ]
-PARTIAL = {}
+PARTIAL = {
+    "C12.same_effect_partial": (
+        "hypotheses beyond the property text: (1) no TAB in any rendered statement - genuinely needed, see C12.same_effect_counterexample / "
+        "finding C12-TAB; (2) readsBack: each rendered body statement is parsed back to itself by the model's reader - proved for all inputs "
+        "only for the version-table statements (C12.reads_back_vt) and, at token level, for every statement (C12.lex_roundtrip); for "
+        "CREATE TABLE / INSERT / CREATE INDEX / ADD COLUMN / DROP the statement-level round trip is a decidable hypothesis evaluated by the "
+        "driver on every generated input (field wf), the general proof is missing; (3) op.execute texts are plain single statements; "
+        "(4) the head set is empty only before the first / after the last step (midOk). Version bookkeeping per step is a parameter "
+        "(any list of insert/update/delete), linear and branched plans alike; the online-only rowcount check is not modelled."
+    ),
+}
 TRUSTED = [
     "SQLite (3.40, through Python's sqlite3 module and SQLAlchemy's pysqlite dialect) as the executor of both the online run and the offline script",
     "SQLAlchemy's statement compilation and render_literal_value for types outside the Lean value language (floats, Decimal, dates/datetimes, booleans): covered by the implementation-side oracle only (executed and compared on every run), not by the Lean theorems",
@@ -73,6 +91,80 @@ def cps(s):
 
 def uncps(a):
     return "".join(chr(x) for x in a)
+
+
+# ---------------------------------------------------------------------------------------
+# translation of a case into the Lean model's vocabulary
+
+TY = {"Integer": ("integer", 0), "Text": ("text", 0)}
+
+
+def col_json(c):
+    if c["type"] in TY:
+        ty, n = TY[c["type"]]
+    else:
+        ty, n = "varchar", int(c["type"].split("(")[1].rstrip(")"))
+    return {"name": cps(c["name"]), "ty": ty, "n": n, "nullable": bool(c.get("nullable", True))}
+
+
+def val_json(v):
+    if v["k"] == "null":
+        return {"k": "null"}
+    if v["k"] == "int":
+        return {"k": "int", "v": str(v["v"])}
+    return {"k": "str", "v": cps(v["v"])}
+
+
+def ops_json(ops):
+    out = []
+    for o in ops:
+        k = o["op"]
+        if k == "create_table":
+            out.append({"op": k, "name": cps(o["name"]), "cols": [col_json(c) for c in o["cols"]]})
+        elif k == "drop_table":
+            out.append({"op": k, "name": cps(o["name"])})
+        elif k == "add_column":
+            out.append({"op": k, "table": cps(o["table"]), "col": col_json(o["col"])})
+        elif k == "create_index":
+            out.append({"op": k, "name": cps(o["name"]), "table": cps(o["table"]), "cols": [cps(c) for c in o["cols"]]})
+        elif k == "drop_index":
+            out.append({"op": k, "name": cps(o["name"])})
+        elif k == "execute":
+            out.append({"op": k, "text": cps(o["text"])})
+        elif k == "bulk_insert":
+            # SQLAlchemy writes the columns in table-definition order; consecutive rows with one key set = one model op
+            order = [c["name"] for c in o["cols"]]
+            group, gkeys = [], None
+            for r in o["rows"] + [None]:
+                keys = None if r is None else [n for n in order if n in r]
+                if group and keys != gkeys:
+                    out.append({"op": k, "table": cps(o["table"]), "cols": [cps(n) for n in gkeys], "rows": group})
+                    group = []
+                if r is not None:
+                    gkeys = keys
+                    group.append([val_json(r[n]) for n in keys])
+    return out
+
+
+def steps_json(case, steps):
+    out = []
+    for st in steps:
+        body = case["bodies"].get(st["rev"], {"up": [], "down": []})["up" if st["up"] else "down"] if st["rev"] else []
+        out.append({"comment": cps(st["log"]), "body": ops_json(body), "ver": [[v[0]] + [cps(x) for x in v[1:]] for v in st["ver"]]})
+    return out
+
+
+def model_cells(db):
+    """model database (JSON from the driver) -> {table: (col names, rows of cells)}, version rows"""
+    def cell(v):
+        return "n" if v["k"] == "null" else ("i:%d" % int(v["v"]) if v["k"] == "int" else "s:" + uncps(v["v"]))
+
+    tables = {uncps(t["name"]): ([uncps(c["name"]) for c in t["cols"]], [[cell(v) for v in r] for r in t["rows"]]) for t in db["tables"]}
+    return tables, sorted(uncps(v) for v in (db["version"] or []))
+
+
+def real_cells(d):
+    return {n: ([c[0] for c in t["cols"]], t["rows"]) for n, t in d["tables"].items()}, d["version"]
 
 
 def hetero_ops(case):
@@ -183,11 +275,48 @@ def one_case(ctx, case, mode, pending):
 def flush(ctx, pending):
     ops = []
     for inp, res in pending:
+        case = inp["case"]
         ops.append({"op": "off.same", "a": dump_json(res["A"]), "b": dump_json(res["B"])})
         ops.append({"op": "off.split", "text": cps(res["script"])})
+        inlang = all(G.in_language(b["up"]) and G.in_language(b["down"]) for b in case["bodies"].values())
+        if inlang:
+            base = {"start": [cps(x) for x in case["start"]], "steps": steps_json(case, res["steps_offline"])}
+            ops.append({"op": "off.emit", **base})
+            ops.append({"op": "off.run", **base, "setup": [steps_json(case, ss) for ss in res["setup_steps"]]})
+        else:
+            ops.append({"op": "off.skip"})
+            ops.append({"op": "off.skip"})
     ans = ctx.drv.ask(ops)
     for k, (inp, res) in enumerate(pending):
-        same, sp = ans[2 * k], ans[2 * k + 1]
+        same, sp, em, rn = ans[4 * k : 4 * k + 4]
+        case = inp["case"]
+        if "script" in em:
+            # (a) the model's offline text is the real output buffer, character by character
+            mtxt = None if em["script"] is None else uncps(em["script"])
+            ctx.hist("model_text", "compared")
+            if mtxt != res["script"]:
+                ctx.disagree("off.emit", summarise(case, inp["mode"]) | {"bodies": case["bodies"]}, res["script"], mtxt)
+            else:
+                ctx.trace_ok()
+            # (b) the model's databases are the real ones (when every statement is interpreted by the model)
+            ctx.hist("theorem_hypotheses_hold(wf)", rn.get("wf"))
+            if rn.get("setup") is True and rn.get("online") and rn.get("offline"):
+                if rn.get("wf") is True and rn.get("same") is not True:
+                    # the hypotheses of C12.same_effect_partial hold for this input, its conclusion must too
+                    ctx.disagree("off.run", summarise(case, inp["mode"]), "real databases agree", "model online/offline differ")
+                if not rn["online"]["log"] and not rn["offline"]["log"]:
+                    ctx.hist("model_db", "compared")
+                    if model_cells(rn["online"]) != real_cells(res["A"]) or model_cells(rn["offline"]) != real_cells(res["B"]):
+                        ctx.disagree("off.run", summarise(case, inp["mode"]) | {"bodies": case["bodies"]},
+                                     {"A": real_cells(res["A"]), "B": real_cells(res["B"])},
+                                     {"online": model_cells(rn["online"]), "offline": model_cells(rn["offline"])})
+                    else:
+                        ctx.trace_ok()
+                else:
+                    ctx.hist("model_db", "opaque-statements")
+            else:
+                ctx.hist("model_db", "model-raises")
+                ctx.disagree("off.run", summarise(case, inp["mode"]) | {"bodies": case["bodies"]}, "both real runs succeed", rn)
         if same.get("holds") is not True:
             # python diff said equal but the Lean checker does not: report (never expected)
             ctx.fail(inp, "spec: Spec.Offline.sameEffect is false on the two dumps %s" % same, impl={"script": res["script"]})
